@@ -15,7 +15,9 @@ def _eval_variant(args):
     base_keys = _G["base_keys"]
     known = _G["known"]
     try:
-        if var[0].startswith("rename:"):
+        if var[0].startswith("patch:"):
+            ov = mutate.patch_overrides(prog, var[1])
+        elif var[0].startswith("rename:"):
             ov = mutate.rename_local(prog, var[1], var[2], var[3], var[4])
         else:
             ov = mutate.apply_variant(prog, var)
@@ -52,11 +54,28 @@ def _eval_variant(args):
 def run_selftest(pid, mod, prog, run, seed=0):
     mutants = list(getattr(mod, "MUTANTS", []))
     rewrites = list(getattr(mod, "REWRITES", []))
-    if not mutants and not rewrites:
-        return {"mutants": 0, "rewrites": 0, "note": "no variants registered for this property"}
     known = {k["key"] for k in report.load_known() if k.get("property") == pid and k.get("status") == "open"}
     _G.update(prog=prog, mod=mod, base_keys={o.key() for o in run.violations()}, known=known)
-    jobs = [(pid, "mutant", v) for v in mutants] + [(pid, "rewrite", v) for v in rewrites]
+    # the independent corpus: breakages written for THIS property must be reported, refactorings (of any property) must leave it silent
+    import json
+    import pathlib
+    V = pathlib.Path(__file__).resolve().parent.parent
+    corpus_m, corpus_r = [], []
+    if os.environ.get("VERIF_NO_CORPUS") != "1":
+        for sd in sorted((V / "seeded").glob("*/meta.json")):
+            try:
+                if json.loads(sd.read_text()).get("property") == pid:
+                    corpus_m.append((f"patch:seeded/{sd.parent.name}", str(sd.parent / "patch.diff")))
+            except Exception:
+                pass
+        exp = V / "regress" / "expected.json"
+        if exp.exists():
+            for f_, prop_ in json.loads(exp.read_text()).items():
+                if prop_ == pid and (V / "regress" / f_).exists():
+                    corpus_m.append((f"patch:regress/{f_}", str(V / "regress" / f_)))
+        for sd in sorted((V / "refactor").glob("*/patch.diff")):
+            corpus_r.append((f"patch:refactor/{sd.parent.name}", str(sd)))
+    jobs = [(pid, "mutant", v) for v in mutants] + [(pid, "rewrite", v) for v in rewrites] + [(pid, "mutant", v) for v in corpus_m] + [(pid, "rewrite", v) for v in corpus_r]
     nproc = min(int(os.environ.get("VERIF_JOBS", "16")), max(1, len(jobs)))
     if nproc > 1:
         ctx = mp.get_context("fork")
